@@ -188,11 +188,13 @@ def main():
                         'RotatedSweepMatchDecoder': [{}, {'max_rounds': 4}]}
                 oi = 0
                 for size in sz:
+                    oi += 1
                     for (dn, ax) in variants:
                         for direction in (rng.sample(DIRS, 1 if decname == 'BeliefPropagationOSDDecoder' else 2) if tier == 'quick' else DIRS):
                             ol = OPTS.get(decname, [{}])
-                            o_ = ol[oi % len(ol)]       # the option sets take turns over the configurations
-                            oi += 1
+                            # the option sets take turns over the SIZES: all deformations / axes of one lattice share one option set
+                            # (two decoders that differ only in the deformation of their code are the interesting neighbours)
+                            o_ = ol[oi % len(ol)]
                             tasks.append((decname + ('|' + json.dumps(o_) if o_ else ''), cls, size, dn, ax, direction, rng.choice([0.02, 0.1, 0.3]),
                                           tier, seed, outdir))
                         # noise deformation on an undeformed code (matching weights per qubit)
